@@ -22,6 +22,7 @@ ASSUMPTIONS = ["JSONSCHEMAGODEBUG unset (the typeschemasnull=1 setting is exerci
 
 
 TS_POOL = [Obj([("type", "string"), ("format", "x")]), Obj([("type", ["integer", "null"])]), Obj([("enum", ["a"])]),
+           Obj([("type", ["string", "integer", "boolean"])]), Obj([("type", ["string", "integer", "boolean"])]), Obj([("type", ["array", "object", "number"]), ("minItems", 1)]),
            Obj([("type", "object"), ("properties", Obj([("q", Obj([("type", "boolean")]))]))]),
            # nested schemas under keywords other than properties / items / additionalProperties
            Obj([("oneOf", [Obj([("type", "string")]), Obj([("type", "integer")])])]),
@@ -52,6 +53,9 @@ def gen(rng, tier, n):
                 # make sure the overridden type occurs, preferably more than once
                 t = rng.choice([{"k": "struct", "fields": [{"name": "P", "tag": 'json:"p"', "t": {"k": "named", "name": nm}},
                                                              {"name": "Q", "tag": 'json:"q"', "t": {"k": "slice", "e": {"k": "named", "name": nm}}}]},
+                                {"k": "struct", "fields": [{"name": "R", "tag": 'json:"r"', "t": {"k": "ptr", "e": {"k": "named", "name": nm}}},
+                                                             {"name": "P", "tag": 'json:"p"', "t": {"k": "named", "name": nm}},
+                                                             {"name": "S", "tag": 'json:"s,omitempty"', "t": {"k": "slice", "e": {"k": "ptr", "e": {"k": "named", "name": nm}}}}]},
                                 {"k": "map", "key": "string", "e": {"k": "named", "name": nm}}, {"k": "named", "name": "Twice"}])
         elif r < 0.3 and gt.GEN["embedding"]:
             # a TypeSchemas override for a type that is embedded (directly or two levels down) in the type under inference
@@ -106,6 +110,8 @@ def judge(o, go, m):
     if o["args"]["type"].get("k") in ("func", "chan", "complex128") or (o["args"]["type"].get("k") == "map" and o["args"]["type"].get("key") == "int"):
         if go.get("outcome") == "ok":
             return "violation", "an unsupported kind was accepted: %s -> %s" % (go.get("gotype"), go.get("schema"))
+    if go.get("ts_untouched") is False:
+        return "violation", "ForType(%s) modified the TypeSchemas it was given" % go.get("gotype")
     if go.get("history_free") is False:
         return "violation", "ForType(%s) with plain options gives another schema after earlier calls with other options (not a function of its arguments)" % go.get("gotype")
     if go.get("outcome") == "ok":
